@@ -18,6 +18,8 @@ package main
 import (
 	"encoding/json"
 	"fmt"
+	"os"
+	"strings"
 
 	"github.com/semihalev/sdns/zzverif/vlib"
 )
@@ -88,6 +90,19 @@ func main() {
 	r.Assume("validated-denial provenance is injected by the stub through middleware.MarkValidatedNegativeProofResponse (structurally complete, unsigned proofs)")
 
 	if raw := r.ReplayCase(); raw != nil {
+		var head struct {
+			Part string `json:"part"`
+		}
+		_ = json.Unmarshal(raw, &head)
+		if head.Part == "D" {
+			var sc dScenario
+			if err := json.Unmarshal(raw, &sc); err != nil || len(sc.Ops) == 0 {
+				r.Fatalf("replay: cannot decode part D scenario: %v", err)
+			}
+			replayScenarioD(r, &sc)
+			r.Finish("replay of one recorded part D scenario prefix (real resolver)")
+			return
+		}
 		var sc Scenario
 		if err := json.Unmarshal(raw, &sc); err != nil || len(sc.Ops) == 0 {
 			r.Fatalf("replay: cannot decode scenario: %v", err)
@@ -97,9 +112,21 @@ func main() {
 		return
 	}
 
-	runPartA(r)
-	runPartB(r)
-	runPartC(r)
+	// C19_PARTS (development aid): run only the listed parts, e.g. "D"
+	parts := os.Getenv("C19_PARTS")
+	want := func(p string) bool { return parts == "" || strings.Contains(parts, p) }
+	if want("A") {
+		runPartA(r)
+	}
+	if want("B") {
+		runPartB(r)
+	}
+	if want("C") {
+		runPartC(r)
+	}
+	if want("D") {
+		runPartD(r)
+	}
 
 	// paths the verdict depends on
 	r.Require("upstream_requests_inspected", 1500)
